@@ -33,7 +33,9 @@ def all_sidecars():
 
 def run_task(task):
     """task = (sidecar module, target, index, props filter or None). Executed in a worker process."""
-    modname, target, idx, propfilter = task
+    modname, target, idx, propfilter = task[:4]
+    prefix = task[4] if len(task) > 4 else None
+    probe_depth = task[5] if len(task) > 5 else None
     t0 = time.time()
     res = {"task": [modname, target, idx], "target": target, "obligations": [], "paths": 0,
            "completed_paths": 0, "error": None, "out_of_reach": [], "inlined": [], "assumed": [],
@@ -85,6 +87,7 @@ def run_task(task):
         def thunk():
             S = Factory(ctx, I)
             inputs = contract.inputs(S)
+            I.global_overrides = contract.globals(S) if contract.globals else {}
             ctx.input_template = snapshot(dict(inputs))
             ghost = contract.ghost(S, Namespace(inputs)) if contract.ghost else {}
             ctx.ghost_template = snapshot(dict(ghost))
@@ -166,7 +169,15 @@ def run_task(task):
                         pass
 
         try:
-            res["paths"] = ctx.explore(thunk)
+            if probe_depth is not None:
+                ctx.explore(thunk, cut_depth=probe_depth)
+                # paths that ended before the cut depth are re-run by the task that owns their prefix: report only prefixes
+                res["prefixes"] = ctx.cut_prefixes
+                res["probe"] = True
+                res["obligations_probe"] = [o.as_dict() for o in ctx.obligations]
+                ctx.obligations = []
+            else:
+                res["paths"] = ctx.explore(thunk, initial=[prefix] if prefix is not None else None)
         except OutOfReach as e:
             res["out_of_reach"].append(str(e))
         res["completed_paths"] = stats["completed"]
@@ -203,7 +214,71 @@ def tasks_for(props=None, targets=None):
     return out
 
 
+def split_tasks(tasks, jobs):
+    """Contracts that declare `split_depth = k` are explored in two phases: a probe that stops at the
+    k-th decision and lists the decision prefixes reached, then one task per prefix (disjoint subtrees
+    that together cover every path; paths shorter than k are completed by the probe itself)."""
+    import multiprocessing as mp
+    reg = load_sidecars(all_sidecars())
+    plain, probes = [], []
+    for t in tasks:
+        c = reg[t[1]][t[2]]
+        k = getattr(c.holder, "split_depth", 0)
+        if k:
+            probes.append(tuple(t[:4]) + (None, k))
+        else:
+            plain.append(t)
+    if not probes:
+        return plain, []
+    ctxm = mp.get_context("fork")
+    with ctxm.Pool(min(jobs, len(probes))) as pool:
+        pres = pool.map(run_task, probes)
+    out = list(plain)
+    short = []
+    for t, r in zip(probes, pres):
+        if r.get("error"):
+            out.append(tuple(t[:4]))
+            continue
+        for pf in r.get("prefixes", []):
+            out.append(tuple(t[:4]) + (pf,))
+        r2 = dict(r)
+        r2["obligations"] = r.get("obligations_probe", [])
+        short.append(r2)
+    return out, short
+
+
+def merge_results(results):
+    """merge per-prefix results of the same (target, idx) into one record"""
+    by = {}
+    order = []
+    for r in results:
+        key = (r["task"][1], r["task"][2])
+        if key not in by:
+            by[key] = r
+            order.append(key)
+            continue
+        a = by[key]
+        a["obligations"] = a["obligations"] + r["obligations"]
+        for k in ("paths", "completed_paths", "solver_ms", "queries"):
+            a[k] = (a.get(k) or 0) + (r.get(k) or 0)
+        for k in ("out_of_reach", "inlined", "assumed", "notes"):
+            a[k] = sorted(set(list(a.get(k) or []) + list(r.get(k) or [])))
+        a["error"] = a.get("error") or r.get("error")
+        a["wall_s"] = max(a.get("wall_s", 0), r.get("wall_s", 0))
+        if "function" not in a and "function" in r:
+            a["function"] = r["function"]
+    return [by[k] for k in order]
+
+
 def run_all(tasks, jobs=None):
+    import multiprocessing as mp
+    jobs = jobs or 16
+    tasks, short = split_tasks(tasks, jobs)
+    res = _run_pool(tasks, jobs)
+    return merge_results(short + res)
+
+
+def _run_pool(tasks, jobs=None):
     import multiprocessing as mp
     jobs = jobs or min(16, max(1, len(tasks)))
     if jobs == 1 or len(tasks) <= 1:
